@@ -1418,3 +1418,101 @@ mut("quiet-prev-checkpoint-ge-form", ["C01", "C04"], [(BM, '''		if height <= che
 			break
 		}
 		prevCheckpoint = &checkpoints[i]''')], [])
+
+# ---- rules added after the third batch of independently seeded changes ----
+HL = "headerlist/bounded_header_list.go"
+FDB = "filterdb/db.go"
+BU = "banman/util.go"
+IT = "chainimport/iter.go"
+mut("c01-headerlist-prev-after-advance", ["C01"], [(HL, '''	var prevElem *Node
+	if b.tailPtr != -1 {
+		prevElem = &b.chain[b.tailPtr]
+	}
+
+	// With a maxSize of one''', '''	var prevElem *Node
+
+	// With a maxSize of one'''), (HL, '''	chainIndex := b.tailPtr
+	b.chain[chainIndex] = n
+''', '''	chainIndex := b.tailPtr
+	if chainIndex != b.headPtr {
+		prevElem = &b.chain[b.tailPtr]
+	}
+	b.chain[chainIndex] = n
+''')], ["C01.V3"])
+mut("c05-putfilter-raw-bytes", ["C05"], [(FDB, "	bytes, err := filter.NBytes()\n	if err != nil {\n		return err\n	}\n\n	return bucket.Put(hash[:], bytes)", "	bytes, err := filter.Bytes()\n	if err != nil {\n		return err\n	}\n\n	return bucket.Put(hash[:], bytes)")], ["C05.T1"])
+mut("c15-empty-pending-skips-token-return", ["C15"], [(PB, '''		// Make a copy of the current set of transactions to hand to
+		// the goroutine.''', '''		if len(transactions) == 0 {
+			return
+		}
+
+		// Make a copy of the current set of transactions to hand to
+		// the goroutine.''')], ["C15.P1"])
+mut("c11-height-filter-per-subscriber", ["C11", "C19"], [(MG, '''	for _, subscriber := range m.subscribers {
+		m.notifySubscriber(subscriber, ntfn)''', '''	for _, subscriber := range m.subscribers {
+		if _, ok := ntfn.(*Connected); ok && ntfn.Height() <= subscriber.bestHeight {
+			continue
+		}
+		m.notifySubscriber(subscriber, ntfn)''')], ["C11.W1", "C19.W2"])
+mut("c13-parse-by-length", ["C13"], [(BU, "	case ip.To4() != nil:\n		if mask == nil {\n			mask = defaultIPv4Mask", "	case len(ip) == net.IPv4len:\n		if mask == nil {\n			mask = defaultIPv4Mask")], ["C13.T2"])
+mut("c13-port-not-stripped", ["C13"], [(BU, '''	host, _, err := net.SplitHostPort(addr)
+	if err != nil {
+		// Address doesn't include a port.
+		host = addr
+	}
+''', '''	host := addr
+''')], ["C13.T2"])
+mut("c10-drain-after-wait", ["C10"], [(US, '''		// Re-queue previously skipped requests for next batch.
+		for _, request := range s.nextBatch {
+			heap.Push(&s.pq, request)
+		}
+		s.nextBatch = nil
+
+''', ''), (US, '''		req := s.pq.Peek()
+		s.cv.L.Unlock()''', '''		for _, request := range s.nextBatch {
+			heap.Push(&s.pq, request)
+		}
+		s.nextBatch = nil
+
+		req := s.pq.Peek()
+		s.cv.L.Unlock()''')], ["C10.O4"])
+mut("c12-one-worker-per-address", ["C12"], [(WM, '''		case peer := <-peersConnected:
+''', '''		case peer := <-peersConnected:
+			if _, ok := workers[peer.Addr()]; ok {
+				continue Loop
+			}
+''')], ["C12.O3"])
+mut("c07-filter-rollback-reads-after-truncate", ["C07"], [(ST, '''	newHeaderTip, err := f.readHeader(newHeightTip)
+	if err != nil {
+		return nil, err
+	}
+
+	// Now that we have the information we need''', '''	// Now that we have the information we need'''), (ST, '''	// TODO(roasbeef): return chain hash also?
+	return &BlockStamp{
+		Height: int32(newHeightTip),
+		Hash:   *newHeaderTip,''', '''	newHeaderTip, err := f.readHeader(newHeightTip)
+	if err != nil {
+		return nil, err
+	}
+
+	// TODO(roasbeef): return chain hash also?
+	return &BlockStamp{
+		Height: int32(newHeightTip),
+		Hash:   *newHeaderTip,''')], ["C07.G2"])
+mut("quiet-filter-rollback-explicit-genesis-check", ["C07"], [(ST, '''	newHeightTip := chainTipHeight - 1
+	newHeaderTip, err := f.readHeader(newHeightTip)''', '''	if chainTipHeight == 0 {
+		return nil, fmt.Errorf("cannot roll back past genesis")
+	}
+	newHeightTip := chainTipHeight - 1
+	newHeaderTip, err := f.readHeader(newHeightTip)''')], [])
+mut("c18-goroutine-reads-shared-map", ["C18"], [(Q, "		go func(sp *ServerPeer, peerQuit <-chan struct{}) {", "		go func(sp *ServerPeer) {"), (Q, "				case <-peerQuit:\n					return\n				case <-timeout:", "				case <-peerQuits[sp.Addr()]:\n					return\n				case <-timeout:"), (Q, "		}(sp, peerQuits[sp.Addr()])", "		}(sp)")], ["C18.R3"])
+mut("c14-batch-iterator-exclusive-end", ["C14"], [(IT, "		for currentIdx <= endIdx {", "		for currentIdx < endIdx {")], ["C14.V1"])
+mut("c14-iterator-exclusive-end", ["C14"], [(IT, "		for idx := startIdx; idx <= endIdx; idx++ {", "		for idx := startIdx; idx < endIdx; idx++ {")], ["C14.V1"])
+mut("quiet-batch-iterator-negated-form", ["C14"], [(IT, "		for currentIdx <= endIdx {", "		for !(currentIdx > endIdx) {")], [])
+mut("c04-inv-locator-tip-only", ["C04"], [(BM, '''			knownLocator, err := b.cfg.BlockHeaders.LatestBlockLocator()
+			if err == nil {
+				locator = append(locator, knownLocator...)
+			}
+
+			// Get headers based on locator.
+			err = imsg.peer.PushGetHeadersMsg(locator,''', '''			// Get headers based on locator.
+			err := imsg.peer.PushGetHeadersMsg(locator,''')], ["C04.O3"])
